@@ -39,17 +39,29 @@ RULE = (
 )
 
 HORIZON = 60
+_TG: dict = {}
+
+
+def _tiny_grammar():
+    if "g" not in _TG:
+        from mc import grammars as G
+
+        _TG["b"] = G.build(G.family_shapes()[0])
+        _TG["g"] = _TG["b"].extract()
+    return _TG["g"]
 
 
 class ProxyBudget(SearchBudget):
-    def __init__(self, real, ref, log):
-        self.real, self.ref, self.log = real, ref, log
+    def __init__(self, real, ref, log, snap=None):
+        self.real, self.ref, self.log, self.snap, self.snaps = real, ref, log, snap, []
 
     def is_done(self, tracker):
         if len(self.log) >= HORIZON:
             raise HorizonExceeded("budget checks")
         ans = self.real.is_done(tracker)
         self.log.append((tracker.get_number_evaluations(), bool(ans), bool(self.ref(tracker))))
+        if self.snap is not None:
+            self.snaps.append(self.snap())
         return ans
 
 
@@ -74,6 +86,8 @@ def budget_pair(kind, n, target, fit_log, minimize):
         return AnyOf(TargetFitness(target), EvaluationBudget(n)), lambda tr: ref_eval(tr) or ref_target(tr)
     if kind == "any(any(target,eval),eval2)":
         return AnyOf(AnyOf(TargetFitness(target), EvaluationBudget(n + 3)), EvaluationBudget(n)), lambda tr: ref_eval(tr) or ref_target(tr)
+    if kind == "simplegp":  # built by the library; only the reference is ours
+        return None, (lambda tr: ref_eval(tr) or (target is not None and ref_target(tr)))
     raise ValueError(kind)
 
 
@@ -115,6 +129,17 @@ def units(tier, seed):
         for size in (2, 3):
             us.append({"algo": "gp", "n": n, "budget": "eval", "minimize": False, "target": None, "size": size,
                        "step": "mutation-then-tournament", "max_dev": md, "max_execs": me})
+            # the selection step evaluates the offspring before the next population presents them to the tracker
+            for kind in kinds[1:3]:
+                for minimize in (False, True):
+                    us.append({"algo": "gp", "n": n + 4, "budget": kind, "minimize": minimize, "target": 0 if minimize else 2, "size": size,
+                               "step": "mutation-then-tournament", "max_dev": md, "max_execs": me})
+    # the budget SimpleGP's constructor builds from (target_fitness, max_evaluations), with SimpleGP's own step and tracker
+    for n in (5, 9):
+        for target in (None, 0, 0.0, 2, 1.0):
+            for minimize in (False, True):
+                us.append({"algo": "simplegp", "n": n, "budget": "simplegp", "minimize": minimize, "target": target, "size": 4,
+                           "step": "simplegp-built", "max_dev": md, "max_execs": me})
     for algo, size in (("rs", 1), ("1+1", 1), ("hc", 2), ("gp", 3)):
         for n in (3, 6):
             us.append({"algo": algo, "n": n, "budget": "eval", "minimize": False, "target": None, "size": size,
@@ -163,8 +188,19 @@ def run_unit(unit) -> UnitResult:
             # the same budget object already served a complete search (with its own tracker and problem)
             p0 = SingleObjectiveProblem(lambda p: 2.0, minimize=minimize)
             RandomSearch(p0, real, StubRepresentation(2), random=src, tracker=SingleObjectiveProgressTracker(p0, SequentialEvaluator())).search()
-        budget = ProxyBudget(real, ref, checks)
-        if algo == "gp":
+        budget = ProxyBudget(real, ref, checks) if real is not None else None
+        if algo == "simplegp":
+            from geml.simplegp import SimpleGP
+            from geneticengine.algorithms.gp.operators.initializers import StandardInitializer
+
+            sgp = SimpleGP(ff, _tiny_grammar(), minimize=minimize, target_fitness=unit["target"], max_time=1e9, max_evaluations=n,
+                           population_size=size, elitism=1, novelty=1, mutation_probability=0.5)
+            alg = sgp.gp
+            # the grammar-guided parts are replaced by the stub; budget, step, tracker and problem stay SimpleGP's
+            alg.representation, alg.random, alg.population_initializer = rep, src, StandardInitializer()
+            tracker = alg.tracker
+            alg.budget = budget = ProxyBudget(alg.budget, ref, checks)
+        elif algo == "gp":
             alg = GeneticProgramming(problem, budget, rep, random=src, tracker=tracker, population_size=size, step=gp_step(unit["step"]))
         elif algo == "rs":
             alg = RandomSearch(problem, budget, rep, random=src, tracker=tracker)
@@ -172,14 +208,27 @@ def run_unit(unit) -> UnitResult:
             alg = HC(problem, budget, rep, random=src, tracker=tracker, number_of_mutations=size)
         else:
             alg = OnePlusOne(problem, budget, rep, random=src, tracker=tracker)
-        run.checks, run.fit_log, run.tracker = checks, fit_log, tracker
+        handed = []  # raw fitness of every individual presented to the tracker, in order
+        orig_evaluate = tracker.evaluate
+
+        def logging_evaluate(individuals):
+            inds = list(individuals)
+            out = orig_evaluate(inds)
+            handed.extend(i.get_fitness(problem_of[0]).fitness_components[0] for i in inds if i.has_fitness(problem_of[0]))
+            return out
+
+        tracker.evaluate = logging_evaluate
+        problem_of = [alg.problem]
+        alg.budget.snap = lambda: len(handed)
+        run.checks, run.fit_log, run.tracker, run.handed, run.snaps = checks, fit_log, tracker, handed, alg.budget.snaps
         alg.search()
-        return checks, list(fit_log), tracker.get_number_evaluations()
+        return checks, list(fit_log), tracker.get_number_evaluations(), list(handed), list(alg.budget.snaps)
 
     st = ExploreStats()
     terminated = 0
     capped_witness = None
     batch = 1 if algo in ("rs", "1+1") else size
+    n_only = unit["budget"] == "eval" or (unit["budget"] == "simplegp" and unit["target"] is None)
     feat = {"algo": algo, "budget": unit["budget"], "step": unit["step"]}
     for ex in explore(run, max_dev=unit["max_dev"], max_execs=unit["max_execs"], horizon=20000, stats=st):
         r.executions += 1
@@ -194,7 +243,7 @@ def run_unit(unit) -> UnitResult:
             r.add_violation(Violation(PROP, f"{algo}.search", "raised", dict(feat, exc=type(ex.exc).__name__), w, f"{unit}: {exc_brief(ex.exc)}"))
             continue
         terminated += 1
-        checks, fit_log, evals = ex.result
+        checks, fit_log, evals, handed, snaps = ex.result
         r.count("terminated_runs")
         if evals != len(fit_log):
             r.count("counter_differs_from_invocations(C13's business)")
@@ -203,7 +252,10 @@ def run_unit(unit) -> UnitResult:
         # every check answers like the reference
         for k, (ev, ans, ref) in enumerate(checks):
             if ans != ref:
-                r.add_violation(Violation(PROP, "SearchBudget.is_done", "wrong-answer", dict(feat, expected=ref), w,
+                # was the best evaluated individual ever presented to the tracker before this check?
+                pick = min if minimize else max
+                presented = bool(handed[: snaps[k]]) and pick(handed[: snaps[k]]) == pick(fit_log[:ev]) if ev else None
+                r.add_violation(Violation(PROP, "SearchBudget.is_done", "wrong-answer", dict(feat, expected=ref, best_presented_to_tracker=presented), w,
                                           f"{unit['budget']} n={n} target={unit['target']} minimize={minimize}: check {k} at {ev} evaluations "
                                           f"(fitness so far {fit_log[:ev]}) answered {ans}, reference {ref}"))
                 break
@@ -214,14 +266,14 @@ def run_unit(unit) -> UnitResult:
                 r.add_violation(Violation(PROP, f"{algo}.search", "continued-after-done", feat, w, f"{unit}: checks {checks}"))
             elif evals != checks[-1][0]:
                 r.add_violation(Violation(PROP, f"{algo}.search", "evaluated-after-done", feat, w, f"{unit}: {evals} evaluations at return, {checks[-1][0]} at the done check"))
-            elif unit["budget"] == "eval" and not (n <= evals < n + batch):
+            elif n_only and not (n <= evals < n + batch):
                 r.add_violation(Violation(PROP, f"{algo}.search", "overshoot", dict(feat, sign="under" if evals < n else "over"), w,
                                           f"{algo} size {size} n={n}: stopped with {evals} evaluations (allowed [{n}, {n + batch}))"))
             else:
                 # between two consecutive checks at most `batch` evaluations
                 prev = 0
                 for ev, _, _ in checks:
-                    if ev - prev > batch and not (algo == "gp" and prev == 0 and ev <= size):
+                    if ev - prev > batch and not (algo in ("gp", "simplegp") and prev == 0 and ev <= size):
                         r.add_violation(Violation(PROP, f"{algo}.search", "too-many-evaluations-between-checks", feat, w,
                                                   f"{algo} size {size}: {ev - prev} evaluations between two checks"))
                         break
